@@ -81,6 +81,8 @@ package load
 //@   ensures  implies(result, 10.0*real(as.flying) > 1.0)
 //@   ensures  implies(gOver && real(as.flying) > gMF && as.avgFlying > gMF && gMF >= 1.0, result)
 //@   ensures  gOver == ret(systemOverloadChecker, 0) && as.flying == old(as.flying) && as.avgFlying == old(as.avgFlying)
+//@   ensures  adVal[as.overloadTime] == ite(gOver, now, old(adVal[as.overloadTime]))
+//@   ensures  implies(result && !gOver, old(abVal[as.droppedRecently]) && old(adVal[as.overloadTime]) != 0 && now - old(adVal[as.overloadTime]) < time.Second)
 //@   modifies gOver, gHot, gMF, gF, adVal[as.overloadTime], abVal[as.droppedRecently], calls(systemOverloadChecker)
 
 //@ func (as *adaptiveShedder) addFlying
@@ -101,6 +103,9 @@ package load
 //@   ensures  implies(err != nil, (gOver || gHot) && real(old(as.flying)) > gMF*gF && gMF >= 1.0 && gF >= 0.1 && 10.0*real(old(as.flying)) > 1.0)
 //@   ensures  implies(err == nil, p != nil && as.flying == old(as.flying) + 1)
 //@   ensures  implies(gOver && real(old(as.flying)) > gMF && old(as.avgFlying) > gMF && gMF >= 1.0, err != nil)
+// overloadTime is the time of the last Allow at which the CPU check was positive: shedding itself never extends the cool-off
+//@   ensures  adVal[as.overloadTime] == ite(gOver, now, old(adVal[as.overloadTime]))
+//@   ensures  implies(err != nil && !gOver, old(abVal[as.droppedRecently]) && old(adVal[as.overloadTime]) != 0 && now - old(adVal[as.overloadTime]) < time.Second)
 
 //@ func (p *promise) Fail
 //@   property C02
